@@ -98,6 +98,40 @@ theorem getattrKind_readonly {E : Env} {t : Trait} (h : t.kind = .readonly) (d :
     getattrKind E t d n = .ok (t.dflt, d.set n t.dflt) := by
   unfold getattrKind; rw [h]
 
+theorem getattrKind_trait {E : Env} {t : Trait} (h : t.kind = .trait) (d : Map Val) (n : Name) :
+    getattrKind E t d n = .ok (t.dflt, d.set n t.dflt) := by
+  unfold getattrKind; rw [h]
+
+theorem setattrKind_trait_untyped {E : Env} {t : Trait} (h : t.kind = .trait) (hv : t.validator = none)
+    (d : Map Val) (n : Name) (v : Val) : setattrKind E t d n (some v) = .ok (d.set n v) := by
+  unfold setattrKind; rw [h]; simp only [hv]
+
+/-- `remove_trait(name)` on an existing object. -/
+theorem step_removeTrait_spec (E : Env) {w : World} {oi : Nat} {o : Obj} {c : Cls} (ho : w.objs[oi]? = some o)
+    (hc : w.classes[o.cls]? = some c) (name : Name) :
+    ∃ o', (step E w (.removeTrait oi name)).1.objs[oi]? = some o' ∧ o'.itraits.get name = none ∧
+      o'.cls = o.cls ∧ (step E w (.removeTrait oi name)).1.classes = w.classes ∧
+      (step E w (.removeTrait oi name)).2 = .ok (.bool (o.itraits.get name).isSome) ∧
+      (∀ k, k ≠ name → o'.itraits.get k = o.itraits.get k ∧ o'.dict.get k = o.dict.get k) := by
+  simp only [step]
+  rw [withObj_eq ho hc]
+  unfold removeTrait
+  cases h0 : trait0 c o name with
+  | none =>
+    obtain ⟨hi, _⟩ := trait0_none h0
+    exact ⟨o, ho, hi, rfl, rfl, by rw [hi]; rfl, fun _ _ => ⟨rfl, rfl⟩⟩
+  | some t0 =>
+    simp only
+    cases hi : o.itraits.get name with
+    | some t =>
+      refine ⟨_, getElem?_set_self' ho, Map.get_erase_same _ _, rfl, rfl, rfl, ?_⟩
+      intro k hk
+      exact ⟨Map.get_erase_ne _ (Ne.symm hk), Map.get_erase_ne _ (Ne.symm hk)⟩
+    | none =>
+      refine ⟨_, getElem?_set_self' ho, hi, rfl, rfl, rfl, ?_⟩
+      intro k hk
+      exact ⟨rfl, Map.get_erase_ne _ (Ne.symm hk)⟩
+
 /-! ### histories -/
 
 theorem run_append (E : Env) (w : World) (a b : List Op) :
